@@ -19,6 +19,8 @@ func init() {
 	core.Register(&core.Check{
 		ID:    "C14",
 		Level: "model_checking",
+		// generous internal deadline: the run takes 1-2 minutes on an idle machine and several times that next to other jobs
+		QuickBudget: 900,
 		Rule: "for each of 13 body shapes (an int-valued guard; a yielded expression that would raise / would consume a shared source on the stop step; guarded yield then recur; recur then guarded yield; two yields; no recur; keyword arguments; body reading a reassigned outer variable; unguarded infinite; nil first yield; no declared parameters with \\ resp. \\1) the complete history tree of depth <=5 (thorough 6) over the operations " +
 			"{iK := gen.new(0|2), iK := iJ.new(1), iK := iJ (alias), iJ.next, iJ.A, iJ@{..}, iJ$(0)+ (thorough), lim := 1|5} on <=3 iterator variables; states = model states reached, transitions = operations; " +
 			"freshness (no model): for 7 literals incl. ones that keep progress in body-local assignments or threaded keyword arguments, every history of <=3 (thorough 4) operations over 9 (next, A, chains, _iter copy, new, advancing the literal itself) followed by b := a.new(args) and c := gen.new(args): both must yield exactly what a first iterator yielded; " +
